@@ -476,6 +476,13 @@ SAFE_HEADER = re.compile(r"^(type|name|label(::\w+)?|hint(::\w+)?|relevant|const
                          r"calculation|default|appearance|choice_filter|repeat_count|read_only|readonly)$")
 
 
+def cleaned(form):
+    """the survey cells as `clean_text_values(strip_whitespace=True)` leaves them (the model starts there)"""
+    f = dict(form)
+    f["survey"] = [{k: (re.sub(r"( )+", " ", v.strip()) if isinstance(v, str) else v) for k, v in r.items()} for r in form["survey"]]
+    return f
+
+
 def fuzz_case(ctx, case, correspond=False):
     form = case["form"]
     r = run_case(case)
@@ -486,7 +493,7 @@ def fuzz_case(ctx, case, correspond=False):
         if all(SAFE_HEADER.match(h) for h in hs) and all(set(c) <= {"list_name", "name", "label", "label::en", "label::fr"} for c in form.get("choices") or []):
             st = settings_of(form)
             if set(st) <= {"form_title", "form_id", "version", "default_language"}:
-                m = formcommon.model_call(ctx, form)
+                m = formcommon.model_call(ctx, cleaned(form))
                 ctx.count(f"B:model:{m['outcome']}")
                 if m["outcome"] == "error":
                     ctx.mismatch("fuzz: model rejects, implementation accepts", case, "ok", m["err"])
